@@ -14,6 +14,8 @@ Operations (menu, simplest first):
   list                    sessions()
   store(s, d, n, v)       persist_msg(payload(s,d,n,v), handle, d)
   set(s, out, in)         set_seq_num(handle, next_num_out=out, next_num_in=in)
+  sseq(s, out, in)        handle.next_num_out/in = out/in (None: as loaded); store_seq_num(handle)
+                          model: counters change, no message removed
 Handles are always freshly loaded by CompIDs right before the call (the way
 ``FIXConnection.__init__`` obtains its handle).  The query operations
 (recover_messages on a grid of int and digit-string bounds incl. inverted
@@ -34,6 +36,7 @@ DNAME = {IN: "in", OUT: "out"}
 
 NUMS = [1, 2, 3, 7, 2 ** 40]
 SETVALS = [None, 1, 2, 3, 8]
+SSEQVALS = [None, 1, 3, 8]  # store_seq_num: None = the value the fresh handle was loaded with
 MAXI = 2 ** 63 - 1  # sys.maxsize: the "open end" FIXConnection passes for EndSeqNo=0
 GRID = [0, 1, 2, 3, 7, 8, 2 ** 40, MAXI]
 STR_BOUNDS = [("1", "3"), ("2", "10"), ("10", "2"), ("0", str(MAXI)), (1, "3"), ("2", 8),
@@ -52,6 +55,8 @@ CL_DUP = "storing a number twice fails with the duplicate error and changes noth
 CL_SET = "setting the counters removes exactly the messages numbered at or above the new values"
 CL_LOAD = ("every way of loading a session (by CompIDs or listing all) reports the same next inbound and "
            "outbound numbers")
+CL_SSEQ = ("the journal behaves like a map ... plus two counters per session (store_seq_num is documented: 'Stores "
+           "current session seq nums in journal (no messages deleted)')")
 CL_MAP = "the journal behaves like a map from (session, direction, sequence number) to message bytes plus two counters per session"
 
 
@@ -113,6 +118,12 @@ def m_enabled(state, third=True):
         for o in SETVALS:
             for i in SETVALS:
                 ops.append(("set", si, o, i))
+    for si in range(3):
+        if state[si] is None:
+            continue
+        for o in SSEQVALS:
+            for i in SSEQVALS:
+                ops.append(("sseq", si, o, i))
     return ops
 
 
@@ -163,6 +174,18 @@ def m_step(state, op):
         st[si] = (o, i, keep)
         return tuple(st), {"cls": "set", "removed": removed, "kept": len(keep), "new": {OUT: o, IN: i},
                            "explicit": {OUT: no is not None, IN: ni is not None}}
+    if kind == "sseq":
+        # store_seq_num(handle): "Stores current session seq nums in journal (no messages deleted)"
+        _, si, no, ni = op
+        o, i, ms = st[si]
+        if no is not None:
+            o = no
+        if ni is not None:
+            i = ni
+        above = sum(1 for k, _ in ms if k[1] >= (o if k[0] == OUT else i))
+        st[si] = (o, i, ms)
+        return tuple(st), {"cls": "sseq", "above": above, "new": {OUT: o, IN: i},
+                           "explicit": {OUT: no is not None, IN: ni is not None}}
     raise ValueError(op)
 
 
@@ -184,6 +207,8 @@ def m_pending(pending, op, info):
         return pending | {("open", op[1])}
     if c == "set":
         return pending | {("set", op[1])}
+    if c == "sseq":
+        return pending | {("sseq", op[1])}
     return pending
 
 
@@ -236,6 +261,16 @@ class Real:
                 self.calls += 1
                 r = self.j.set_seq_num(h, next_num_out=no, next_num_in=ni)
                 return ("ok", r)
+            if kind == "sseq":
+                _, si, no, ni = op
+                h = self.load(si)
+                if no is not None:
+                    h.next_num_out = no
+                if ni is not None:
+                    h.next_num_in = ni
+                self.calls += 1
+                r = self.j.store_seq_num(h)
+                return ("ok", r)
         except Exception as e:  # noqa
             return ("exc", type(e).__name__ + ": " + str(e)[:120])
         raise ValueError(op)
@@ -276,6 +311,8 @@ def _opclause(info):
         return "duplicate", CL_DUP
     if c == "set":
         return "set_counters", CL_SET
+    if c == "sseq":
+        return "store_seq_num", CL_SSEQ
     return "load", CL_MAP  # open / list must not change anything that exists
 
 
@@ -355,7 +392,7 @@ def observe(real, state, op, info, full, J):
         for dn, got, exp in ((OUT, ho, mo), (IN, hi, mi)):
             if got != exp:
                 # attribute to the operation that produced the model value
-                if op[0] in ("store", "set") and op_si == si:
+                if op[0] in ("store", "set", "sseq") and op_si == si:
                     if info["cls"] == "store_new":
                         what = "next_%s_wrong_after_storing_%s" % (DNAME[dn], DNAME[op[2]])
                     elif info["cls"] == "store_dup":
@@ -511,6 +548,13 @@ def _content_diff(rev, si, d, state, exp_items, got, op, info):
                     kinds.append("removed_below_new_value:%s" % ("explicit" if info["explicit"][d] else "kept"))
                 else:
                     kinds.append("message_lost")
+            elif info["cls"] == "sseq":
+                if op_si != si:
+                    kinds.append("removed_in_%s_session" % ("mirror" if {si, op_si} == {0, 1} else "other"))
+                elif n >= info["new"][d]:
+                    kinds.append("removed_at_or_above_stored_counter:%s" % ("explicit" if info["explicit"][d] else "kept"))
+                else:
+                    kinds.append("removed_below_stored_counter")
             elif info["cls"] == "store_new" and op[1:4] == (si, d, n):
                 kinds.append("stored_message_not_returned")
             elif info["cls"] in ("store_new", "store_dup"):
@@ -655,6 +699,8 @@ def _nontrivial(info):
         return info["rel"] != "number_unused_elsewhere" or info["order"] == "below_counter"
     if c == "set":
         return info["removed"] > 0 and info["kept"] > 0
+    if c == "sseq":
+        return info["above"] > 0  # counters stored below existing rows
     return False
 
 
@@ -704,13 +750,13 @@ def run(ctx):
                 "dedup key = reference model state + the set of (session, kind) of session creations / counter settings "
                 "made since the last successful store (possibly unsaved work); "
                 "BFS over operation sequences {open x3 sessions (T,S),(S,T),(T,S2); list; store x sessions x 2 directions x "
-                "n in {1,2,3,7,2^40} x 2 payloads; set_seq_num x sessions x {None,1,2,3,8}^2} with the reference model state as "
+                "n in {1,2,3,7,2^40} x 2 payloads; set_seq_num x sessions x {None,1,2,3,8}^2; store_seq_num x sessions x handle counters {kept,1,3,8}^2 (incl. below existing rows)} with the reference model state as "
                 "dedup key; every (model state, op) pair up to the depth is executed on a fresh in-memory Journaler by replaying "
                 "the representative sequence; after it both loading paths, the widest range query per (session,direction), and "
                 "(full observation) all range queries on an 8x8 int bound grid + 8 digit-string/mixed pairs, 7 single lookups "
                 "and get_all_msgs with 7 filter shapes are compared with the model. non-trivial = duplicate store, store of a "
-                "number that exists in another direction/session or lies below the counter, or a set that removes some and "
-                "keeps some messages")
+                "number that exists in another direction/session or lies below the counter, a set that removes some and "
+                "keeps some messages, or a store_seq_num below existing rows")
     seen = {m_key(m_init())}
     level = [((), m_init(), frozenset())]
     tot = dict(tr=0, calls=0, evals=0, txn=0, nontriv=0, taint=0)
@@ -766,7 +812,7 @@ def run(ctx):
               nontrivial=tot["nontriv"], journaler_calls=tot["calls"], duplicate_left_open_transaction=tot["txn"],
               transitions_not_judged_because_prefix_diverged=tot["taint"])
     ctx.bounds = {"depth": depth, "sessions": [list(s) for s in session_ids(NAMES)], "numbers": NUMS,
-                  "set_values": [str(v) for v in SETVALS], "int_bound_grid": GRID, "string_bounds": [list(b) for b in STR_BOUNDS],
+                  "set_values": [str(v) for v in SETVALS], "store_seq_num_values": [str(v) for v in SSEQVALS], "int_bound_grid": GRID, "string_bounds": [list(b) for b in STR_BOUNDS],
                   "lookups": LOOKUPS, "payload_variants": 2, "per_level": per_level}
     ctx.sample({"sequence": [["open", 0], ["store", 0, OUT, 1, 0], ["list"]], "meaning": "store(s, direction 1=out/0=in, n, payload variant)"})
     for seq, _, _ in last_level[:: max(1, len(last_level) // 4)][:4]:
